@@ -8,7 +8,7 @@
 (*                                                                                                               *)
 (* Design part  : Design(cat, mode, fl) - a transcription of GetAllDroppedObj (iteration order, the dbName       *)
 (*                variable shared by both loops, the target's name-only lookup of a tombstoned database, string  *)
-(*                keys).  Deviation switches: FixStaleDb, OracleTarget, SafeKeys (TRUE = repaired).              *)
+(*                keys).  Deviation switches: FixStaleDb, LiveDbGuard, SafeKeys (TRUE = repaired).               *)
 (* Contract part: Contract(cat, mode, lk, extra) - Snapshot transcribed from the property statement, phrased     *)
 (*                over name lookups (what the writer asks the table), not over key strings.                      *)
 EXTENDS Integers, Sequences, FiniteSets, TLC, Json, SequencesExt, FiniteSetsExt
@@ -20,7 +20,7 @@ CONSTANTS DBs, CNames, PNames,  \* sequences of model names: databases, collecti
           Concrete,             \* record model name -> concrete string used in the catalog (adversarial names)
           Now,                  \* the source's current time (model ticks; every creation time is smaller)
           FixStaleDb,           \* TRUE = with a nil target the partition loop uses the partition's own database (repaired)
-          OracleTarget,         \* TRUE = the target names the right database for a collection of a tombstoned database (ideal)
+          LiveDbGuard,          \* TRUE = a name-only answer of the target that names a database alive upstream is discarded (repaired)
           SafeKeys              \* TRUE = name keys cannot collide (repaired); FALSE = "<db>_<coll>_<part>" as built
 
 VARIABLE hist
@@ -126,10 +126,10 @@ PKey(fl, dn, c, p) == KDb(dn) \o Sep(fl) \o c \o Sep(fl) \o p
 Tome == "_tome"
 
 (* ------------------------------------------------------------------ Design: GetAllDroppedObj as built *)
-\* fl = [stale |-> BOOLEAN (as built: TRUE), nameonly |-> BOOLEAN (as built: TRUE), safekeys |-> BOOLEAN (as built: FALSE)]
-AsBuiltFlags == [stale |-> TRUE, nameonly |-> TRUE, safekeys |-> FALSE]
-RepairedFlags == [stale |-> FALSE, nameonly |-> FALSE, safekeys |-> TRUE]
-CfgFlags == [stale |-> ~FixStaleDb, nameonly |-> ~OracleTarget, safekeys |-> SafeKeys]
+\* fl = [stale |-> BOOLEAN (as built: TRUE), guard |-> BOOLEAN (as built: FALSE), safekeys |-> BOOLEAN (as built: FALSE)]
+AsBuiltFlags == [stale |-> TRUE, guard |-> FALSE, safekeys |-> FALSE]
+RepairedFlags == [stale |-> FALSE, guard |-> TRUE, safekeys |-> TRUE]
+CfgFlags == [stale |-> ~FixStaleDb, guard |-> LiveDbGuard, safekeys |-> SafeKeys]
 
 \* dbID2Name after getDatabases: the name, or "_tome" for a tombstoned database
 SrcDbName(cat, dbid) == LET r == DbById(cat, dbid) IN IF r.st = "live" THEN cat.names[r.name] ELSE Tome
@@ -140,21 +140,22 @@ SrcDbName(cat, dbid) == LET r == DbById(cat, dbid) IN IF r.st = "live" THEN cat.
 \* that still have a readable record upstream.
 DownDbs(cat) == SelectSeq(cat.dbs, LAMBDA r : r.st = "live" \/ r.down)
 DownHas(cat, r, c) == \E x \in VisColls(cat) : x.dbid = r.id /\ x.name = c
-TargetDbName(cat, fl, coll, origin) ==
+TargetDbName(cat, coll, origin) ==
     IF origin # Tome THEN origin
-    ELSE IF fl.nameonly
-         THEN LET hit == SelectSeq(DownDbs(cat), LAMBDA r : DownHas(cat, r, coll.name))
-              IN IF Len(hit) = 0 THEN "" ELSE cat.names[hit[1].name]
-         ELSE LET r == DbById(cat, coll.dbid) IN IF r.down THEN cat.names[r.name] ELSE ""
+    ELSE LET hit == SelectSeq(DownDbs(cat), LAMBDA r : DownHas(cat, r, coll.name))
+         IN IF Len(hit) = 0 THEN "" ELSE cat.names[hit[1].name]
+LiveNames(cat) == {cat.names[r.name] : r \in {x \in ToSet(cat.dbs) : x.st = "live"}}
+\* the answer is discarded: NotFoundDatabase, or (repaired) a database that is alive upstream cannot be the tombstoned one
+Discard(cat, fl, origin, dn) == dn = "" \/ (fl.guard /\ origin = Tome /\ dn \in LiveNames(cat))
 
 ById(S) == SetToSortSeq(S, LAMBDA a, b : a.id < b.id)            \* etcd key order (ids have equal digit counts)
 
 CollLoop(cat, mode, fl) ==
     LET step(acc, c) ==
           LET origin == SrcDbName(cat, c.dbid)
-              dn == IF mode = "milvus" THEN TargetDbName(cat, fl, c, origin) ELSE origin
-          IN IF mode = "milvus" /\ dn = ""
-               THEN [acc EXCEPT !.dbName = ""]                                  \* NotFoundDatabase: continue
+              dn == IF mode = "milvus" THEN TargetDbName(cat, c, origin) ELSE origin
+          IN IF mode = "milvus" /\ Discard(cat, fl, origin, dn)
+               THEN [acc EXCEPT !.dbName = dn]                                  \* continue
                ELSE LET key == CKey(fl, dn, cat.names[c.name])
                         a1 == [acc EXCEPT !.dbName = dn,
                                           !.db = IF mode = "milvus" /\ origin # dn THEN Put(@, DKey(fl, dn), cat.now - 1) ELSE @]
@@ -166,10 +167,10 @@ PartLoop(cat, mode, fl, dbName0) ==
     LET step(acc, p) ==
           LET c == CollById(cat, p.cid)
               origin == SrcDbName(cat, c.dbid)
-              dn == IF mode = "milvus" THEN TargetDbName(cat, fl, c, origin)
+              dn == IF mode = "milvus" THEN TargetDbName(cat, c, origin)
                     ELSE IF fl.stale THEN acc.dbName ELSE origin               \* nil target: dbName is never assigned here
-          IN IF mode = "milvus" /\ dn = ""
-               THEN [acc EXCEPT !.dbName = ""]
+          IN IF mode = "milvus" /\ Discard(cat, fl, origin, dn)
+               THEN [acc EXCEPT !.dbName = dn]
                ELSE LET key == PKey(fl, dn, cat.names[c.name], cat.names[p.name])
                         a1 == [acc EXCEPT !.dbName = dn]
                     IN IF p.st \in Liveish THEN [a1 EXCEPT !.created = Put(@, key, p.ct)]
@@ -207,11 +208,17 @@ ExtraOf(cat, fl, T) ==
                                    \cup ((DOMAIN T.part \ asked("part")) \ TomeKeys(cat, fl))
 
 (* ------------------------------------------------------------------ Contract: Snapshot from the statement *)
-\* The names of a database can be known only if its record is readable, or (Milvus target) it still exists downstream.
-Resolvable(cat, mode, d) == LET r == DbOf(cat, d) IN r.st = "live" \/ (mode = "milvus" /\ r.down)
+\* The name of a database is known if its record is readable.  A tombstone carries no name: the objects of a
+\* tombstoned database can be attributed to it only through the downstream catalog (Milvus target), and only if the
+\* collection name identifies it: no other database (downstream copy or tombstoned as well) has a readable collection
+\* record of that name.  Where the database cannot be identified the statement is not applicable and an entry is
+\* optional - but never for the names of a live database, whose record is readable.
+Identifies(cat, d, c) == \A r \in ToSet(cat.dbs) : r.name # d => ~DownHas(cat, r, c)
+Resolvable(cat, mode, d, c) ==
+    LET r == DbOf(cat, d) IN r.st = "live" \/ (mode = "milvus" /\ r.down /\ Identifies(cat, d, c))
 
 CollRule(cat, mode, lk, d, c) ==
-    Resolvable(cat, mode, d) =>
+    Resolvable(cat, mode, d, c) =>
       LET V  == {r \in VisColls(cat) : r.db = d /\ r.name = c}
           Dr == {r \in V : r.st \in Dropish}
           Lv == {r \in V : r.st \in Liveish}
@@ -223,7 +230,7 @@ CollRule(cat, mode, lk, d, c) ==
 \* A partition record that is still "created" below a dropped collection incarnation may or may not be counted as
 \* a dropped incarnation of the partition name (the statement does not say): both readings are accepted.
 PartRule(cat, mode, lk, d, c, p) ==
-    Resolvable(cat, mode, d) =>
+    Resolvable(cat, mode, d, c) =>
       LET R  == {r \in VisParts(cat) : r.db = d /\ r.coll = c /\ r.name = p}
           cst(r) == CollById(cat, r.cid).st
           Dr == {r \in R : r.st \in Dropish}
@@ -239,7 +246,7 @@ DbRule(cat, mode, lk, d) ==
     LET r == DbOf(cat, d)
         e == lk[<<"db", d, "", "">>]
     IN /\ r.st = "live" => ~e.has                                   \* a live database is never marked dropped
-       /\ (mode = "milvus" /\ r.st = "gone" /\ r.down /\ \E x \in VisColls(cat) : x.db = d) => e.has
+       /\ (mode = "milvus" /\ r.st = "gone" /\ r.down /\ \E x \in VisColls(cat) : x.db = d /\ Identifies(cat, d, x.name)) => e.has
        /\ e.has => e.t = cat.now - 1
 
 Contract(cat, mode, lk, extra) ==
